@@ -132,8 +132,8 @@ func (d *Device) handleABSEvent(ie *input.InputEvent) {
 		value = float64(ie.Event.Value) / math.Abs(float64(max))
 	}
 
-	// Put it always between -1.0 and 1.0 so we can deadzone the center
-	if analog.DeadzoneAtCenter {
+	// Put it always between -1.0 and 1.0 so we can deadzone the center (a signed axis already is)
+	if analog.DeadzoneAtCenter && !canBeNegative {
 		value = value*2 - 1.0
 		canBeNegative = true
 	}
